@@ -5,6 +5,7 @@ SymBool.__bool__; exploration is depth-first by re-execution along recorded deci
 Runs under python3-vt (CPython 3.11 + z3-solver wheel) with PYTHONPATH=/repo.
 """
 import builtins
+import hashlib
 import time
 import z3
 
@@ -55,7 +56,7 @@ class Engine:
 
     def fresh(self, name, sort="int"):
         self.nfresh += 1
-        nm = "%s!%d" % (name, self.nfresh)
+        nm = "%s%s!%d" % (getattr(self, "name_prefix", ""), name, self.nfresh)
         return z3.Int(nm) if sort == "int" else (z3.Real(nm) if sort == "real" else z3.Bool(nm))
 
     def mark_bool(self, t):
@@ -286,8 +287,11 @@ def bits_of(t, W=None, force=False):
     ent = ENG.bitcache.get(key)
     if ent is None:
         # reuse a wider/narrower decomposition if present? keep it simple: one per (term, W)
-        bs = [ENG.fresh("b") for _ in range(W)]
-        hi = ENG.fresh("hi")
+        # skolems are named after the term they decompose, so that the same term met in another exploration of the
+        # same job (guarded vs unguarded twin, reference evaluation) shares them instead of re-deriving uniqueness
+        dg = hashlib.md5(t.sexpr().encode()).hexdigest()[:10]
+        bs = [z3.Int("b%d_%s_%d" % (W, dg, i)) for i in range(W)]
+        hi = z3.Int("bh%d_%s" % (W, dg))
         for b in bs:
             ENG.add_axiom(z3.And(b >= 0, b <= 1))
             ENG.mark_bool(b)
